@@ -36,6 +36,7 @@ deriving Repr
 structure SSess where
   id : Int
   views : List SView
+  broker : Nat := 0
 deriving Repr
 
 structure SSt where
@@ -44,6 +45,7 @@ structure SSt where
   bounds : List Bounds := []
   prods : List (Int × SProd) := []
   sess : List SSess := []
+  via : Nat := 0          -- the broker the client talks to (sessions live on one broker)
 deriving Repr
 
 def sinit (np : Nat) : SSt := { logs := List.replicate np [], bounds := List.replicate np ⟨0, 0, 0⟩ }
@@ -165,6 +167,14 @@ def sessionKey (st : SSt) (rc : Bool) (views : List SView) (resp : List PResp) :
           | m :: _ => if m.first < (if rc then b.lso else b.hwm) && m.nbytes ≤ v.pmax then some "session-omits-data" else none
       | _, _ => some "session-omits-unknown-partition"))
 
+/-- bytes of everything readable from the session partitions' fetch offsets (an upper bound of what a fetch looks at). -/
+def availBytes (st : SSt) (rc : Bool) (views : List SView) : Int :=
+  views.foldl (fun acc v =>
+    match st.bounds[v.p]?, st.logs[v.p]? with
+    | some b, some log =>
+      acc + ((log.dropWhile (fun m => m.first + m.n ≤ v.off)).filter (fun m => m.first < (if rc then b.lso else b.hwm))).foldl (fun a m => a + m.nbytes) 0
+    | _, _ => acc) 0
+
 /-- One step: the operation, what the implementation answered, the bounds it reports afterwards.
 Returns the new ledger and the key of the violated clause, if any. -/
 def specStep (st : SSt) (op : Op) (out : Out) (nb : List Bounds) : SSt × Option String :=
@@ -187,7 +197,7 @@ def specStep (st : SSt) (op : Op) (out : Out) (nb : List Bounds) : SSt × Option
     | .addp k _ ps, .addp r =>
       if r.all (fun e => e.2 == 0) && !r.isEmpty then (sp st k (addReg (gp st k) st.now ps), none) else (st, none)
     | .prod v12 k epoch seq n nbytes q tx, .prod code base _ =>
-      if q ≥ np then (st, none) else
+      if q ≥ np || code == 6 then (st, none) else   -- unknown partition / not the leader: the request never reached the log
       let log := st.logs.getD q []
       -- registration mirrored from KIP-890: a v12+ transactional produce adds the partition to the transaction
       let st0 := if v12 && tx && k ≥ 0 && (gp st k).inited then sp st k (addReg (gp st k) st.now [q]) else st
@@ -223,10 +233,23 @@ def specStep (st : SSt) (op : Op) (out : Out) (nb : List Bounds) : SSt × Option
         let p := gp st k
         if p.started.isSome || !p.opens.isEmpty then (closeTx st [k] commit, none) else (st, none)
     | .del _ _, .codeVal _ _ => (st, none)
+    | .move _ _, .ok => (st, none)
+    | .via b, .ok => ({ st with via := b }, none)
     | .sleep ms, .ok =>
       let s1 := { st with now := st.now + ms }
       (closeTx s1 (expiring s1) false, none)
-    | .fetch _ _, .fetch _ _ _ => (st, none)
+    | .fetch f _, .fetch el _ _ _ =>
+      -- a fetch may wait (MinBytes): at most MaxWait, and only if fewer than MinBytes were readable when it arrived;
+      -- transactions that time out meanwhile are aborted
+      let views := match st.sess.find? (fun s => s.id == f.sid) with
+        | some se => if f.sepoch > 0 then f.req.foldl viewUpdate (se.views.filter (fun v => !f.forget.contains v.p)) else f.req.foldl viewUpdate []
+        | none => f.req.foldl viewUpdate []
+      let wkey : Option String :=
+        if el < 0 || el > f.maxWait then some "fetch-wait-exceeded"
+        else if el > 0 && availBytes st f.rc views ≥ f.minBytes then some "fetch-waited-with-data"
+        else none
+      let s1 := { st with now := st.now + el }
+      (closeTx s1 (expiring s1) false, wkey)
     | _, _ => (st, some "answer-shape")
   -- log start: moves only by an acknowledged DeleteRecords, to the requested offset
   let lsKey : Option String := firstSome ((List.range np).map (fun q =>
@@ -244,7 +267,7 @@ def specStep (st : SSt) (op : Op) (out : Out) (nb : List Bounds) : SSt × Option
   -- fetch clauses (evaluated against the bounds before = after)
   let (st3, fKey) : SSt × Option String :=
     match op, out with
-    | .fetch f _, .fetch err sid ps =>
+    | .fetch f _, .fetch _ err sid ps =>
       if err != 0 then (st2, none) else
       let offOf (views : List SView) (p : Nat) : Int :=
         match f.req.find? (fun r => r.p == p) with
@@ -252,12 +275,12 @@ def specStep (st : SSt) (op : Op) (out : Out) (nb : List Bounds) : SSt × Option
         | none => match views.find? (fun v => v.p == p) with | some v => v.off | none => 0
       let firstP : Option Nat := f.req.head?.map (·.p)
       if f.sepoch == -1 then
-        ({ st2 with sess := if f.sid > 0 then st2.sess.filter (fun s => s.id != f.sid) else st2.sess },
+        ({ st2 with sess := if f.sid > 0 then st2.sess.filter (fun s => !(s.id == f.sid && s.broker == st2.via)) else st2.sess },
          firstSome (ps.map (fun r => fetchPartKey st2 f.rc (offOf [] r.p) (firstP == some r.p) r)))
       else if f.sepoch == 0 then
         let views := viewSeen (f.req.foldl viewUpdate []) ps
-        let sess0 := if f.sid > 0 then st2.sess.filter (fun s => s.id != f.sid) else st2.sess
-        ({ st2 with sess := sess0 ++ [⟨sid, views⟩] },
+        let sess0 := if f.sid > 0 then st2.sess.filter (fun s => !(s.id == f.sid && s.broker == st2.via)) else st2.sess
+        ({ st2 with sess := sess0 ++ [⟨sid, views, st2.via⟩] },
          firstSome (ps.map (fun r => fetchPartKey st2 f.rc (offOf [] r.p) (firstP == some r.p) r)))
       else
         match st2.sess.find? (fun s => s.id == f.sid) with
@@ -266,10 +289,12 @@ def specStep (st : SSt) (op : Op) (out : Out) (nb : List Bounds) : SSt × Option
           let views0 := (se.views.filter (fun v => !f.forget.contains v.p))
           let views1 := f.req.foldl viewUpdate views0
           let k1 := firstSome (ps.map (fun r => fetchPartKey st2 f.rc (offOf views1 r.p) (firstP == some r.p) r))
-          -- completeness only when the byte limit cannot have cut the response
-          let k2 := if f.maxBytes ≥ 1000000 then sessionKey st2 f.rc views1 ps else none
+          -- completeness is judged whenever the request-level byte limit cannot have cut the response: kfake stops
+          -- at a partition only when the bytes of the batches it has looked at exceed MaxBytes, and it looks at
+          -- nothing but the readable batches from each session partition's fetch offset on
+          let k2 := if availBytes st2 f.rc views1 ≤ f.maxBytes then sessionKey st2 f.rc views1 ps else none
           let views2 := viewSeen views1 ps
-          ({ st2 with sess := st2.sess.map (fun s => if s.id == se.id then ⟨se.id, views2⟩ else s) },
+          ({ st2 with sess := st2.sess.map (fun s => if s.id == se.id then ⟨se.id, views2, se.broker⟩ else s) },
            match k1 with | some k => some k | none => k2)
     | _, _ => (st2, none)
   (st3, firstSome [key, lsKey, bKey, fKey])
